@@ -153,6 +153,7 @@ type FrontResult struct {
 	Stdout    []string       `json:"stdout"`
 	Blocks    []FrontBlock   `json:"blocks"`
 	Groups    [][]jComment   `json:"groups"`
+	MarkersSane bool         `json:"markersSane"`
 }
 
 // ---------------------------------------------------------------------------------------------
